@@ -135,9 +135,13 @@ def library_outcome(cmd, expr, doc_text, opts):
         return ("foreign", type(e).__name__)
 
 
-def check(ctx, files, cmd, label, expr, doc_ok, opts, use_subprocess, repo):
+STRING_ROOT_DOCS = ['"[1, 2]"', '"12"', '"a[0]"', '"hello"', '"true"', '"{\\"a\\": 1}"', '""', "12", "null", "[]"]
+
+
+def check(ctx, files, cmd, label, expr, doc_ok, opts, use_subprocess, repo, doc_text=None):
     ctx.evaluation()
-    doc_text = DOC_TEXT if doc_ok else BAD_DOC_TEXT
+    if doc_text is None:
+        doc_text = DOC_TEXT if doc_ok else BAD_DOC_TEXT
     argv = []
     if opts["debug"]:
         argv.append("--debug")
@@ -168,8 +172,8 @@ def check(ctx, files, cmd, label, expr, doc_ok, opts, use_subprocess, repo):
         argv.append("--no-type-checks")
     if cmd in ("pointer", "patch") and opts["uri_decode"]:
         argv.append("-u")
-    case = {"argv": argv, "cmd": cmd, "label": label, "expr": expr_text, "doc_ok": doc_ok, "opts": opts}
-    ctx.case(h(cmd, expr_text, doc_ok, sorted(opts.items()), use_subprocess))
+    case = {"argv": argv, "cmd": cmd, "label": label, "expr": expr_text, "doc_ok": doc_ok, "opts": opts, "doc_text": doc_text}
+    ctx.case(h(cmd, expr_text, doc_text, sorted(opts.items()), use_subprocess))
     want = library_outcome(cmd, expr_text, doc_text, opts)
     if want[0] == "foreign":
         # the library raised something outside its own families.  For an input class the
@@ -280,6 +284,21 @@ def run(spec, ctx):
                     if files.n > 400:
                         shutil.rmtree(tmp, ignore_errors=True)
                         files = Files(tmp)
+        # documents whose root is a JSON string (possibly looking like JSON itself), a number, null
+        if spec["part"] == 0:
+            small = {"path": [("valid", "$"), ("valid", "$[0]"), ("valid", "$..*")], "pointer": [("valid", ""), ("unresolvable", "/0"), ("unresolvable", "/a")],
+                     "patch": [("valid", []), ("valid", [{"op": "test", "path": "", "value": "[1, 2]"}]), ("failing", [{"op": "add", "path": "/a", "value": 1}]), ("valid", [{"op": "replace", "path": "", "value": {"r": 1}}])]}[cmd]
+            for label, expr in small:
+                for dt in STRING_ROOT_DOCS:
+                    for opts in option_product(cmd):
+                        if opts["debug"] or opts["no_unicode_escape"] or opts["expr_file"] or opts["no_type_checks"] or opts["uri_decode"]:
+                            continue
+                        lab = label
+                        if cmd == "patch" and label == "valid" and expr and expr[0]["op"] == "test" and dt != '"[1, 2]"':
+                            lab = "failed-test"
+                        check(ctx, files, cmd, lab, expr, True, opts, r.random() < sub_share, REPO, doc_text=dt)
+                        ctx.count("string_or_scalar_root_documents")
+                        n += 1
     finally:
         shutil.rmtree(tmp, ignore_errors=True)
     ctx.count("invocations", n)
@@ -312,6 +331,6 @@ def replay(case, ctx):
             except Exception:  # noqa: BLE001
                 pass
         for sub in (False, True):
-            check(ctx, files, case["cmd"], case["label"], expr, case["doc_ok"], case["opts"], sub, REPO)
+            check(ctx, files, case["cmd"], case["label"], expr, case["doc_ok"], case["opts"], sub, REPO, doc_text=case.get("doc_text"))
     finally:
         shutil.rmtree(tmp, ignore_errors=True)
